@@ -111,6 +111,7 @@ type FuncContract struct {
 	Pure     bool
 	Observer string
 	Inline   []string
+	Fresh    []string // extern/trusted only: named pointer results that are freshly allocated when non-nil
 	Uses     []string
 	Induct   []string
 	Decreases *Clause // lemma measure
@@ -174,7 +175,7 @@ type ContractFile struct {
 
 var clauseKeywords = map[string]bool{
 	"requires": true, "ensures": true, "modifies": true, "pure": true, "observer": true, "loop": true,
-	"inline": true, "uses": true, "induct": true, "decreases": true, "witness": true, "trusted": true,
+	"inline": true, "fresh": true, "uses": true, "induct": true, "decreases": true, "witness": true, "trusted": true,
 	"trigger": true, "instance": true, "nooverflow": true, "assert": true, "wraparound": true, "effect": true, "callback": true, "fuel": true,
 }
 
@@ -460,6 +461,8 @@ func (cf *ContractFile) addClause(fc *FuncContract, text string, line int) error
 		fc.Observer = rest
 	case "inline":
 		fc.Inline = append(fc.Inline, splitTopComma(rest)...)
+	case "fresh":
+		fc.Fresh = append(fc.Fresh, splitTopComma(rest)...)
 	case "uses":
 		fc.Uses = append(fc.Uses, splitTopComma(rest)...)
 	case "induct":
